@@ -706,6 +706,56 @@ fn c11_raw_second(pl: &mut Placed, a: &[u8], b: &[u8], at_end: bool, r: &mut Rep
     }
 }
 
+/// Operands that share storage: both are views into ONE block (`ra`, `rb` are byte ranges of it, each ending with its
+/// NUL) -- the second operand a tail of the receiver's own buffer (what `path_file_name` and a `from_ptr` into the same
+/// C string hand out), the receiver a tail of the second, or two strings stored back to back (`a\0b\0`, the layout of
+/// argv / envp).  The definitions are about bytes, not addresses: the answers must be those for separately stored copies.
+fn c11_views(pl: &mut Placed, block: &[u8], ra: (usize, usize), rb: (usize, usize), r: &mut Report) {
+    let a: Vec<u8> = block[ra.0..ra.1 - 1].to_vec();
+    let b: Vec<u8> = block[rb.0..rb.1 - 1].to_vec();
+    for op in ["find", "find_buf", "match_up_to", "match_up_to_str", "ends_with", "path_join", "path_join_fmt"] {
+        r.eval();
+        r.nontrivial_unique();
+        let blk: &[u8] = pl.a.place_end(block);
+        let blk = unsafe { std::slice::from_raw_parts(blk.as_ptr(), blk.len()) };
+        let ua = unsafe { UnixStr::from_bytes_unchecked(&blk[ra.0..ra.1]) };
+        let ub = unsafe { UnixStr::from_bytes_unchecked(&blk[rb.0..rb.1]) };
+        let bb = &blk[rb.0..rb.1 - 1];
+        let case = json!({"op": op, "block": show_bytes(block), "ra": [ra.0, ra.1], "rb": [rb.0, rb.1], "shared_storage": true});
+        set_case(&case.to_string());
+        let (got, want): (Result<String, String>, String) = match op {
+            "find" => (catch(|| format!("{:?}", ua.find(ub))), format!("{:?}", ref_find(&a, &b))),
+            "find_buf" => (catch(|| format!("{:?}", ua.find_buf(bb))), format!("{:?}", ref_find(&a, &b))),
+            "match_up_to" => (catch(|| format!("{}", ua.match_up_to(ub))), format!("{}", ref_prefix(&a, &b))),
+            "match_up_to_str" => {
+                let bs = unsafe { std::str::from_utf8_unchecked(bb) };
+                (catch(|| format!("{}", ua.match_up_to_str(bs))), format!("{}", ref_prefix(&a, &b)))
+            }
+            "ends_with" => (catch(|| format!("{}", ua.ends_with(ub))), format!("{}", a.ends_with(&b))),
+            "path_join" => (catch(|| show_bytes(content(ua.path_join(ub).as_slice()))), show_bytes(&ref_join(&a, &b))),
+            _ => {
+                let bs = unsafe { std::str::from_utf8_unchecked(bb) };
+                (catch(|| show_bytes(content(ua.path_join_fmt(format_args!("{bs}")).as_slice()))), show_bytes(&ref_join(&a, &b)))
+            }
+        };
+        clear_case();
+        let rel = if rb.0 >= ra.1 { "second-stored-right-behind-the-receiver" } else if ra.0 >= rb.1 { "receiver-stored-right-behind-the-second" } else if rb.0 >= ra.0 { "second-is-a-tail-of-the-receiver" } else { "receiver-is-a-tail-of-the-second" };
+        match got {
+            Err(p) => r.violation(&format!("C11:{op}:panic"), format!("{op}({:?}, {:?}) [{rel}] panicked: {p}", show_bytes(&a), show_bytes(&b)), case),
+            Ok(g) => {
+                r.outcome(&format!("shared-storage:{rel}:{op}:{}", if g == "None" || g == "false" { "no" } else { "answer" }));
+                if g != want {
+                    r.violation(
+                        &format!("C11:{op}:wrong-answer"),
+                        format!("{op}({:?}, {:?}) = {g} when the operands share storage ({rel}), definition gives {want} (and so do separately stored copies)", show_bytes(&a), show_bytes(&b)),
+                        case,
+                    );
+                }
+            }
+        }
+    }
+}
+
 fn c11_single(pl: &mut Placed, a: &[u8], at_end: bool, r: &mut Report) {
     let an = with_nul(a);
     for op in ["parent_path", "path_file_name"] {
@@ -831,6 +881,34 @@ fn c11(args: &Args) -> Report {
             r.sample(json!({"op":"find_buf","a":"a.a","b":".a\\0","raw_second":true}));
             r
         }));
+        let (lt, lb2) = if args.thorough { (8, 4) } else { (6, 3) };
+        items.push(isolated("operands-sharing-storage", move || {
+            let mut r = Report::new();
+            let mut pl = Placed { a: GuardArena::new(2), b: GuardArena::new(2) };
+            // (1) every string <= lt, every tail of it (incl. the whole and the empty tail) as the other operand, both roles
+            for a in all_strings(SIGMA11, lt) {
+                let an = with_nul(&a);
+                for k in 0..an.len() {
+                    c11_views(&mut pl, &an, (0, an.len()), (k, an.len()), &mut r);
+                    if k > 0 {
+                        c11_views(&mut pl, &an, (k, an.len()), (0, an.len()), &mut r);
+                    }
+                }
+            }
+            // (2) every pair <= lb2 stored back to back in one block, both roles
+            let ss = all_strings(SIGMA11, lb2);
+            for a in &ss {
+                for b in &ss {
+                    let mut blk = with_nul(a);
+                    blk.extend_from_slice(&with_nul(b));
+                    let la = a.len() + 1;
+                    c11_views(&mut pl, &blk, (0, la), (la, blk.len()), &mut r);
+                    c11_views(&mut pl, &blk, (la, blk.len()), (0, la), &mut r);
+                }
+            }
+            r.sample(json!({"op":"find","block":"/a/a\\0","ra":[0,5],"rb":[3,5],"shared_storage":true}));
+            r
+        }));
         let np = if args.thorough { 4 } else { 3 };
         items.push(isolated("multi-byte-characters", move || {
             // operands built from characters that share lead bytes (é/è: c3 a9 / c3 a8, €/₭: e2 82 ac / e2 82 ad) so that two
@@ -886,6 +964,7 @@ fn c11(args: &Args) -> Report {
          every string of length <= {ls} into parent_path/path_file_name, each under two guard-page placements (operand ends at / starts after an inaccessible page); \
          plus a fixed ladder of long operands (labelled, not exhaustive); a family of compile-time literal templates for path_join_fmt x every left operand; \
          raw second operands holding NUL bytes for find_buf / match_up_to_str: every receiver <= 4 (5) over {{a,'.'}} x every raw operand <= 4 (5) over {{a,'.',NUL}} with at least one NUL; \
+         operands sharing storage: every string <= 6 (8) with each of its tails as the other operand (both roles) and every pair <= 3 (4) stored back to back in one block (both roles); \
          a length ladder: for EVERY length up to 200 (thorough 1100) equal / one-byte-changed / shorter / longer operands in both orders and placements, and every \
          position of one separator. Each (op, operands, placement) generated once."
     );
@@ -902,7 +981,13 @@ fn replay(v: &serde_json::Value, r: &mut Report) {
     let b = parse_shown(v["b"].as_str().unwrap_or(""));
     let at_end = v["placement"].as_str() != Some("start");
     println!("replaying op={op} a={} b={}", show_bytes(&a), show_bytes(&b));
-    if v.get("placement").is_some() {
+    if v.get("shared_storage").is_some() {
+        let mut pl = Placed { a: GuardArena::new(2), b: GuardArena::new(2) };
+        let block = parse_shown(v["block"].as_str().unwrap_or(""));
+        let g = |k: &str, i: usize| v[k][i].as_u64().unwrap() as usize;
+        c11_views(&mut pl, &block, (g("ra", 0), g("ra", 1)), (g("rb", 0), g("rb", 1)), r);
+        r.violations.retain(|k, _| k.split(':').nth(1) == Some(op));
+    } else if v.get("placement").is_some() {
         let mut pl = Placed { a: GuardArena::new(2), b: GuardArena::new(2) };
         if v.get("raw_second").is_some() {
             c11_raw_second(&mut pl, &a, &b, at_end, r);
